@@ -30,6 +30,24 @@ where
     }
 }
 
+/// The sub-trees kept on an edge refer to the sub-trees of the edges created
+/// before it. Dropping the edges in the default order (oldest first) only
+/// decrements reference counts until the newest edge is reached, whose drop
+/// then frees the whole structure recursively, one stack frame per tree level.
+/// For a long input that overflows the stack inside `parse` (e.g. on the error
+/// path where the whole GSS is released). Dropping from the newest edge to the
+/// oldest frees one level at a time.
+impl<I, S, P, TK> Drop for GssGraph<'_, I, S, P, TK>
+where
+    I: Input + ?Sized,
+    TK: Copy,
+{
+    fn drop(&mut self) {
+        let (_, mut edges) = std::mem::take(&mut self.0).into_nodes_edges();
+        while edges.pop().is_some() {}
+    }
+}
+
 impl<'i, I, S, P, TK> GssGraph<'i, I, S, P, TK>
 where
     I: Input + ?Sized,
